@@ -26,9 +26,13 @@ def floatToRat (f : Float) : ℚ :=
 /-- `_gaussian(u)` in `Float`. -/
 def gaussF (u : Float) : Float := Float.exp (-(u * u) / 2) / Float.sqrt (2 * 3.141592653589793)
 
-def gaussQ (u : ℚ) : ℚ := floatToRat (gaussF (ratToFloat u))
+/-- Round a non-negative rational to a multiple of `2^-k` (keeps the denominators of the
+Float-assisted weights common and small; the rounding is far inside the float tolerance). -/
+def quant (k : ℕ) (q : ℚ) : ℚ := ((q * (2 : ℚ) ^ k).floor : ℚ) / (2 : ℚ) ^ k
 
-def rootF (s : ℚ) : ℚ := floatToRat (Float.sqrt (ratToFloat s))
+def gaussQ (u : ℚ) : ℚ := quant 80 (floatToRat (gaussF (ratToFloat u)))
+
+def rootF (s : ℚ) : ℚ := quant 48 (floatToRat (Float.sqrt (ratToFloat s)))
 
 def parseCK? : String → Option CKernel
   | "epanechnikov" => some .epanechnikov
